@@ -1,10 +1,10 @@
 CHECK = {
     "gen": [{"pkg": "extract_c08", "out": "lean/ClusterVerif/Gen/C08.lean"}],
     "suites": [
-        suite("roundtrip", "c08", 6000, 60000, stdin=True, args=["-suite", "rt"]),
-        suite("equals", "c08", 1500, 15000, stdin=True, args=["-suite", "eq"]),
-        suite("strings", "c08", 1500, 12000, stdin=True, args=["-suite", "str"]),
-        suite("decoders", "c08", 6000, 80000, stdin=True, args=["-suite", "fuzz"]),
+        suite("roundtrip", "c08", 8000, 150000, stdin=True, args=["-suite", "rt"]),
+        suite("equals", "c08", 2000, 30000, stdin=True, args=["-suite", "eq"]),
+        suite("strings", "c08", 2000, 20000, stdin=True, args=["-suite", "str"]),
+        suite("decoders", "c08", 10000, 300000, stdin=True, args=["-suite", "fuzz"]),
     ],
     "lean_sources": ["ClusterVerif/Model/C08.lean", "ClusterVerif/Spec/C08.lean", "ClusterVerif/Lemmas/C08.lean",
                      "ClusterVerif/Gen/C08.lean"],
